@@ -94,6 +94,11 @@ func leanLayout(c Case, impl string) (string, bool) {
 
 var gapFillers = []struct{ name, text string }{
 	{"space", " "}, {"newline", "\n"}, {"tabs", "\t\t"}, {"linecomment", " -- c\n"},
+	// line comments whose text is empty or made of the characters the comment states look at (dash, paren, quote, CR)
+	{"linecomment-empty", "--\n"}, {"linecomment-empty-blank", " --\n"}, {"linecomment-dash", "---\n"}, {"linecomment-dashes", "-----\n"},
+	{"linecomment-blank", "-- \n"}, {"linecomment-crlf", "--\r\n"}, {"linecomment-late-paren", "--c(\n"}, {"linecomment-closer", "--)--\n"},
+	{"linecomment-quote", "--'\n"}, {"linecomment-dquote", "--\"\n"}, {"two-empty-linecomments", "--\n--\n"},
+	{"empty-linecomment-then-block", "--\n--(c)--"}, {"block-then-empty-linecomment", "--(c)----\n"},
 	{"blockcomment", "--(c)--"}, {"blockcomment-blanks", " --(c)-- "},
 	// comment texts made of the terminator's own characters: every proper prefix of `)--` directly before the real one
 	{"blockcomment-tail-paren-dash", "--(c)-)--"}, {"blockcomment-tail-paren", "--(c))--"}, {"blockcomment-only-paren-dash", "--()-)--"},
